@@ -39,6 +39,10 @@ type runner struct {
 	plain    map[string][]byte
 	// a Seek stopped between its two critical sections (split.go)
 	split *splitSeek
+	// corpus control of the next stepwise flush: a second flush started while it is in flight
+	// (0: random, 1: PersistSync, 2: Persist, -1: none) and the ops of its windows
+	forceOverlap int
+	scriptWindow func(win int)
 }
 
 type pendingFail struct{ key, msg string }
@@ -736,7 +740,98 @@ func (r *runner) opPausedPersist(id int, fail bool) {
 	n.ps = t.id
 	r.line(fmt.Sprintf("pbegin %d %d", id, t.id), fmt.Sprintf("%d", cnt))
 	r.compareDumps("persist window 1 (swapped out, not written)", views, before, r.dumps(views))
-	r.windowOps(id, views)
+	// A SECOND flush of the same store (PersistSync or Persist), started from another goroutine while
+	// the first one is in flight: it has to wait (plock) until the first one is over, whatever the
+	// main goroutine does meanwhile. If it comes back early, what it reported as flushed must still be
+	// in the ordered map afterwards (the reference keeps those writes: the later reads judge that).
+	ovKind, ovWin, ovFirst := 0, 1, r.g.r.Bool()
+	switch {
+	case r.forceOverlap > 0:
+		ovKind, ovFirst = r.forceOverlap, false
+	case r.forceOverlap == 0 && r.g.r.Chance(1, 3):
+		ovKind = 1 + r.g.r.Intn(2)
+		if !fail && r.g.r.Bool() {
+			ovWin = 2
+		}
+	}
+	r.forceOverlap = 0
+	var ovDone chan res
+	ovEarly := false
+	startOverlap := func(win int) {
+		if ovKind == 0 || ovWin != win || ovDone != nil {
+			return
+		}
+		ovDone = make(chan res, 1)
+		go func() {
+			var c int
+			var err error
+			if ovKind == 1 {
+				c, err = n.d.Store.PersistSync()
+			} else {
+				c, err = n.d.Store.Persist()
+			}
+			ovDone <- res{c, err}
+		}()
+		obs := "blocked"
+		select {
+		case rs := <-ovDone:
+			ovEarly = true
+			obs = fmt.Sprintf("done %d", rs.n)
+			r.fail("flush-overlap", "store=%d: a second flush (sync=%v) started while Persist was in flight (window %d) did not wait for it: it returned %d keys as flushed (err %v) while the store's ps still was the tempstore of the first one", id, ovKind == 1, win, rs.n, rs.err)
+		case <-time.After(2 * time.Millisecond):
+		}
+		r.line(fmt.Sprintf("overlap %d %s %d", id, b01(ovKind == 1), win), obs)
+		r.o.Count(fmt.Sprintf("overlap:sync=%v:window=%d", ovKind == 1, win))
+	}
+	// waitOverlap: the second flush goes ahead as soon as the first one is over; its effect on the
+	// reference (and on the backend) is settled before the next line is written.
+	var ovRes *res
+	waitOverlap := func() {
+		if ovDone == nil || ovEarly {
+			return
+		}
+		var rs res
+		select {
+		case rs = <-ovDone:
+		case <-time.After(20 * time.Second):
+			r.o.Fail("persist-hang", r.k, "store=%d: the flush waiting for the one in flight never finished", id)
+			fmt.Fprintln(os.Stderr, "overlapped persist hang")
+			r.o.Close()
+			os.Exit(3)
+		}
+		ovRes = &rs
+		c2 := len(n.own)
+		if rs.n != c2 || rs.err != nil {
+			r.fail("persist-count", "store=%d: the flush that waited for the one in flight returned %d (err %v), %d keys pending", id, rs.n, rs.err, c2)
+		}
+		if c2 > 0 {
+			w.flush(n.own, w.nodes[n.ps])
+			n.own = map[string][]byte{}
+		}
+	}
+	finishOverlap := func() {
+		if ovRes == nil {
+			return
+		}
+		op := "persistsync"
+		if ovKind != 1 {
+			op = "persist"
+		}
+		r.line(fmt.Sprintf("%s %d", op, id), fmt.Sprintf("%d", ovRes.n))
+		r.o.Count("overlap:completed-after-the-first")
+	}
+	window := func(win int) {
+		if ovFirst {
+			startOverlap(win)
+		}
+		if r.scriptWindow != nil {
+			r.scriptWindow(win)
+		} else {
+			r.windowOps(id, views)
+		}
+		startOverlap(win)
+	}
+	window(1)
 	before = r.dumps(views)
 	n.pause.goWrite <- struct{}{}
 	if fail {
@@ -753,28 +848,34 @@ func (r *runner) opPausedPersist(id int, fail bool) {
 		n.own = t.own
 		n.ps = t.ps
 		t.own = map[string][]byte{}
+		viewsAfter := r.dumps(views)
+		waitOverlap()
+		r.compareDumps("the flush that waited for the failed one", views, viewsAfter, r.dumps(views))
 		r.line(fmt.Sprintf("pfail %d", id), obs)
 		r.compareDumps("failed persist", views, before, r.dumps(views))
 		r.o.Count("op:persist-paused-fail")
+		finishOverlap()
 		return
 	}
 	<-n.pause.written
 	w.flush(t.own, w.nodes[t.ps])
 	r.line(fmt.Sprintf("pwrite %d", id), "ok")
 	r.compareDumps("persist window 2 (written, ps not restored)", views, before, r.dumps(views))
-	r.windowOps(id, views)
+	window(2)
 	before = r.dumps(views)
 	n.pause.goOn <- struct{}{}
 	rs := <-done
 	n.pause.mode.Store(0)
 	n.ps = t.ps
 	obs := "ok" + aliased()
+	waitOverlap()
 	if rs.err != nil || rs.n != cnt {
 		obs = fmt.Sprintf("bad %d %v", rs.n, rs.err)
 	}
 	r.line(fmt.Sprintf("pend %d", id), obs)
 	r.compareDumps("persist end", views, before, r.dumps(views))
 	r.o.Count("op:persist-paused")
+	finishOverlap()
 }
 
 // windowOps: a few ordinary reads and writes on the views above the store being flushed.
